@@ -127,6 +127,10 @@ def run(ctx):
                     n.nsmap = base
             elif rng.random() < 0.7:
                 n.nsmap = {"eml": "urn:e", "xsi": "urn:x"}
+                if rng.random() < 0.2:
+                    n.nsmap[None] = "urn:default"          # what from_xml stores for xmlns="..."
+            if n.parent is None and rng.random() < 0.3:
+                n.attributes[rng.choice(["xmlns:eml", "xmlns:stmml", "xmlns:xsi", "xsi:schemaLocation"])] = "urn:own"
         # children attached through the public `children` setter / list append carry no back link: drop some parent links
         if rng.random() < 0.2:
             for n in walk(root):
